@@ -7,6 +7,7 @@ package c11
 import (
 	"encoding/base64"
 	"fmt"
+	"math"
 	"net/http"
 	"net/http/httptest"
 	"net/url"
@@ -50,6 +51,9 @@ func baseEncodings() []encoding {
 		{"aes16", aes(key16, 0), true, 0},
 		{"aes32", aes(key32, 0), true, 0},
 		{"aes16+ttl5s", aes(key16, 5*time.Second), true, 5 * time.Second},
+		// lifetimes of unusual magnitude: a quarter of a millennium, and the "never" idiom (largest duration)
+		{"aes16+ttl250y", aes(key16, 250*365*24*time.Hour), true, 250 * 365 * 24 * time.Hour},
+		{"aes32+ttlmax", aes(key32, time.Duration(math.MaxInt64)), true, time.Duration(math.MaxInt64)},
 	}
 }
 
@@ -372,7 +376,9 @@ func session(c ctx) {
 	}
 	w.upsert(su, roundrobin.Weight(1))
 	// expiry
-	if c.enc.ttl > 0 {
+	// (an expiry instant beyond 2262-04-11 cannot be reached: instants past the range of nanosecond Unix time are
+	// outside the domain of the library's clock arithmetic - such a cookie is only checked while it is valid)
+	if c.enc.ttl > 0 && clock.Now().Add(c.enc.ttl).Before(time.Unix(0, math.MaxInt64).Add(-time.Hour)) {
 		clock.Advance(c.enc.ttl - time.Second)
 		if !c.expectStuck(w, ck, id, "one second before the cookie's ttl", nil) {
 			return
@@ -565,7 +571,7 @@ func Run(tier string, sh lib.Shard, rep *lib.Report) {
 	encs := encodings()
 	rep.Bounds["server_urls"] = len(urls)
 	rep.Bounds["encodings"] = len(encs)
-	rep.Rule = "full product server URL (scheme x userinfo x host x path x query) x cookie encoding (raw, hash, AES 16/32 +-ttl, 16 fallback chains) x front (RoundRobin, Rebalancer): session obligations; for a subset of URLs every truncation / single-bit flip / re-encoding / foreign-key cookie and every pool-change sequence up to length 3; non-trivial = requests whose routing was checked"
+	rep.Rule = "full product server URL (scheme x userinfo x host x path x query) x cookie encoding (raw, hash, AES 16/32 without and with a lifetime of 5s, 250 years, the largest duration; 16 fallback chains) x front (RoundRobin, Rebalancer): session obligations; for a subset of URLs every truncation / single-bit flip / re-encoding / foreign-key cookie and every pool-change sequence up to length 3; non-trivial = requests whose routing was checked"
 	rep.Require("sessions", "stuck_requests", "balanced_requests", "expired_cookies", "mutated_cookies", "pool_change_sequences", "sessions_with_rewrite_listener")
 	mutURLs := map[string]bool{}
 	for i, u := range urls {
